@@ -107,7 +107,11 @@ def scenario(root, srcname, srcform, oloc, eloc, verbose, fname="prog.asm"):
             return p, p, False
         return "/dev/full", "/dev/full", False
     oarg, opath, ow = place(oloc, "flash", stem_of(fname) + ".hex")
-    earg, epath, ew = place(eloc, "eep", stem_of(fname) + ".eep.hex")
+    if eloc == "sameflash":
+        # the very file the flash image goes to: cannot hold both images
+        earg, epath, ew = (oarg or opath), opath, False
+    else:
+        earg, epath, ew = place(eloc, "eep", stem_of(fname) + ".eep.hex")
     if oarg:
         argv += ["-o", oarg if srcform == "abs" or oarg.startswith("/dev") else os.path.relpath(oarg, cwd)]
     if earg:
@@ -159,6 +163,10 @@ def check(prop, tier, seed):
         combos.append(("huge", "abs", "default", "default", False, "prog.asm"))
         combos.append(("huge", "rel-here", "writable", "default", True, "big.asm"))
         combos.append(("huge2", "rel-dir", "existing", "default", False, "prog.asm"))
+        # the same file named for both images
+        for srcname in ("code+eeprom", "code", "fail-pass2"):
+            for srcform, oloc in (("abs", "writable"), ("rel-here", "default"), ("rel-dir", "existing")):
+                combos.append((srcname, srcform, oloc, "sameflash", False, "prog.asm"))
         runs, libjobs = [], []
         for i, (srcname, srcform, oloc, eloc, verbose, fname) in enumerate(combos):
             root = scratch.sub("r%d" % i)
@@ -173,8 +181,11 @@ def check(prop, tier, seed):
             fst = file_state(opath, before, after)
             if oloc == "fsize":
                 fst["recs"] = []          # a file cut short has no meaning; the specification does not look at it
+            est = file_state(epath, before, after)
+            if eloc == "sameflash":
+                est = {"present": False, "changed": False, "recs": []}      # there is no EEPROM file of its own
             runs.append({"argv": argv, "cwd": cwd[len(root):] or "/", "src": srcname, "oloc": oloc, "eloc": eloc,
-                         "flash": fst, "eep": file_state(epath, before, after),
+                         "flash": fst, "eep": est,
                          "flash_writable": ow, "eep_writable": ew, "others_changed": others,
                          "exit": p.returncode, "printed": len(p.stdout) + len(p.stderr) > 0,
                          "stdout": (p.stdout + p.stderr).decode("utf-8", "replace")[:300]})
@@ -222,7 +233,7 @@ def check(prop, tier, seed):
             "rule": "%d sources (valid code / code+EEPROM / EEPROM only / empty / > 64 KiB / failing in parse, pass 2, limits, include / missing file) "
                     "x source path form (absolute, with directory, bare) x source file names (plain, dotted stem, no extension, spaces, upper case) x flash output location x EEPROM output location, each of "
                     "{default next to the source, -o/-e writable, existing file, missing parent directory, a directory, /dev/full} x -v; "
-                    "a 4 KiB program under a 2 KiB file size limit (the flash file is cut short); images of 1 MiB + 6 bytes and 1 MiB + 64 KiB - 28 bytes; "
+                    "the flash file named for the EEPROM image as well; a 4 KiB program under a 2 KiB file size limit (the flash file is cut short); images of 1 MiB + 6 bytes and 1 MiB + 64 KiB - 28 bytes; "
                     "distinct = distinct (source, options)" % len(srcs),
             "lib_ok_runs": sum(1 for e in events if e["lib"]["ok"]), "lib_fail_runs": sum(1 for e in events if not e["lib"]["ok"]),
             "unwritable_output_runs": sum(1 for r in runs if not r["flash_writable"] or not r["eep_writable"]),
